@@ -251,6 +251,7 @@ Proof.
   exists (mkHello 771 (repeat 7 32) [] [4865] [0] [EOther 15 [1]]), [0].
   split; [reflexivity|]. vm_compute. discriminate.
 Qed.
+Print Assumptions C19_parse_ignores_trailing_garbage_refuted.
 
 (* ... precisely: with ANY non-empty trailing bytes, version / suites / compression methods are
    still the hello's and the extension list, curves and points come out EMPTY (the parser
@@ -272,6 +273,22 @@ Print Assumptions C19_parse_ignores_trailing_garbage_without_extensions.
 Example C19_parse_ignores_trailing_garbage_nonvacuous :
   hello_wf (mkHello 771 (repeat 7 32) [] [4865] [0] []) = true /\ [0; 1] <> @nil N.
 Proof. split; [reflexivity|discriminate]. Qed.
+
+(* TRUNCATION: every strict prefix of the encoding of a well-formed hello is recorded as one of
+   four prefixes of the peer's fields, decided by where the cut falls: nothing (< 42 bytes), the
+   version, version + cipher suites, version + suites + compression methods — never extensions,
+   curves or points, and never a value that is not the peer's *)
+Theorem C19_parse_prefix_stages :
+  forall (h : hello) (k : nat), hello_wf h = true -> (k < length (encode_hello h))%nat ->
+    parse_raw_client_hello (firstn k (encode_hello h)) = Ok (stage_info h (cut_stage h k)).
+Proof. exact parse_prefix. Qed.
+Print Assumptions C19_parse_prefix_stages.
+
+Example C19_parse_prefix_stages_nonvacuous :
+  let h := mkHello 771 (repeat 7 32) [1; 2; 3; 4; 5] [4865; 49195] [0] [ECurves [29]] in
+  hello_wf h = true /\ length (encode_hello h) = 62%nat /\
+  map (cut_stage h) [41; 42; 43; 49; 50; 51; 52; 61]%nat = [0; 1; 1; 1; 2; 2; 3; 3]%nat.
+Proof. vm_compute. repeat split. Qed.
 
 (* END TO END: for every well-formed hello, every 3 leading record-header bytes, ANY bytes
    following the record and EVERY way the network splits all of that into reads (empty reads
